@@ -48,6 +48,12 @@ def generate(seed, tier):
         for b in range(a, K):
             if a == b or not assortative:
                 w[a][b] = w[b][a] = round(0.05 + rng.random(), 3)
+    if rng.random() < 0.12:
+        # a valid but badly scaled parametrisation: one community's memberships are tiny but strictly positive
+        k = rng.randrange(K)
+        for row in u:
+            row[k] = row[k] * 1e-13
+        supply = "both"
     return {"seed": seed, "q": rng.choice([0.0, 0.2]), "N": N, "K": K, "D": D, "spec": spec, "weighted": weighted,
             "weights": weights, "assortative": assortative, "supply": supply, "u": u, "w": w,
             "w_prior": rng.choice([0.0, 0.0, 1.0, 0.5]), "u_prior": rng.choice([0.0, 0.0, 1.0]),
